@@ -44,6 +44,12 @@ fn make_pretok(kind: &str) -> Option<Box<dyn PreTokenizer>> {
     })
 }
 
+/// Pre-tokenizer configurations that are meant to partition their input: every byte of the
+/// (normalized) text must end up in exactly one chunk.  The others remove delimiters by design.
+fn split_expected(kind: &str) -> bool {
+    !matches!(kind, "ws-rem" | "word-rem" | "noop")
+}
+
 fn make_norm(kind: &str) -> Option<Box<dyn Normalizer>> {
     use normalizers::{Bert, BertOptions, Replace, Sequence, Unicode};
     Some(match kind {
@@ -188,13 +194,14 @@ fn exec_line(line: &str) -> String {
         Run::TimedOut => CaseOut { new_out: Err(NewErr::Other), runs: vec![], decs: vec![], lossy: false, normalized: false },
     };
     let term = format!(
-        "CTok {} ({}) {} {}",
-        spec.coq_opts(), coq_new_outcome(&r.new_out), coq_list(&r.runs), coq_list(&r.decs)
+        "CTok {} ({}) {} {} {}",
+        spec.coq_opts(), coq_new_outcome(&r.new_out), split_expected(&pkind), coq_list(&r.runs), coq_list(&r.decs)
     );
     let base = f.get("G").cloned().unwrap_or_else(|| "replay".to_string());
     let tag = match r.new_out {
         Ok(()) => {
-            if r.lossy { format!("trivial-lossy-pretok-{}", base) }
+            if r.lossy && split_expected(&pkind) { format!("dropped-text-{}", base) }
+            else if r.lossy { format!("trivial-lossy-pretok-{}", base) }
             else if r.normalized { format!("normalized-{}", base) }
             else { base }
         }
@@ -244,9 +251,89 @@ fn pieces_for_training(kind: &str, text: &str) -> Vec<Vec<u8>> {
     }
 }
 
-fn generate(seed: u64, n: usize, _tier: &str, out: &mut impl Write) {
+/// At least one ASCII (where it exists) and one non-ASCII representative of every Unicode
+/// general category that a Rust string can contain (Cs cannot occur), plus unassigned /
+/// noncharacter code points next to assigned blocks.
+const CATEGORY_REPS: &[(&str, &[char])] = &[
+    ("Lu", &['A', '\u{c9}', '\u{3a9}', '\u{1e9e}']),
+    ("Ll", &['a', '\u{e9}', '\u{3c9}', '\u{df}']),
+    ("Lt", &['\u{1c5}', '\u{1f88}']),
+    ("Lm", &['\u{2b0}', '\u{30fc}', '\u{2c6}']),
+    ("Lo", &['\u{aa}', '\u{65e5}', '\u{5d0}', '\u{1bb}']),
+    ("Mn", &['\u{301}', '\u{5b0}', '\u{20d0}']),
+    ("Mc", &['\u{903}', '\u{93e}']),
+    ("Me", &['\u{20dd}', '\u{488}']),
+    ("Nd", &['7', '\u{663}', '\u{ff19}', '\u{1d7d8}']),
+    ("Nl", &['\u{2167}', '\u{16ee}', '\u{3007}']),
+    ("No", &['\u{b2}', '\u{bd}', '\u{2460}', '\u{3251}', '\u{b9}']),
+    ("Pc", &['_', '\u{203f}']),
+    ("Pd", &['-', '\u{2013}', '\u{30a0}']),
+    ("Ps", &['(', '\u{27e8}', '\u{300c}']),
+    ("Pe", &[')', '\u{27e9}', '\u{300d}']),
+    ("Pi", &['\u{ab}', '\u{2018}']),
+    ("Pf", &['\u{bb}', '\u{2019}']),
+    ("Po", &['!', '\'', '\u{a1}', '\u{3002}']),
+    ("Sm", &['+', '\u{b1}', '\u{2211}']),
+    ("Sc", &['$', '\u{a3}', '\u{20ac}']),
+    ("Sk", &['^', '\u{a8}', '\u{2c2}']),
+    ("So", &['\u{a9}', '\u{2603}', '\u{1f600}']),
+    ("Zs", &[' ', '\u{a0}', '\u{2003}', '\u{3000}']),
+    ("Zl", &['\u{2028}']),
+    ("Zp", &['\u{2029}']),
+    ("Cc", &['\t', '\n', '\u{0}', '\u{85}', '\u{9f}']),
+    ("Cf", &['\u{ad}', '\u{200b}', '\u{200d}', '\u{feff}', '\u{e0001}']),
+    ("Co", &['\u{e000}', '\u{f8ff}', '\u{100000}']),
+    ("Cn", &['\u{378}', '\u{ffff}', '\u{10ffff}', '\u{2fe0}']),
+];
+
+/// Every representative alone, doubled, and embedded between letters, spaces and digits.
+fn category_sweep_texts() -> Vec<String> {
+    let mut v = Vec::new();
+    for (_, reps) in CATEGORY_REPS {
+        for &c in reps.iter() {
+            v.push(format!("{}", c));
+            v.push(format!("{}{}", c, c));
+            v.push(format!("x{}y", c));
+            v.push(format!(" {} ", c));
+            v.push(format!("1{}2", c));
+            v.push(format!("a {}{} 3", c, c));
+        }
+    }
+    v
+}
+
+const SWEEP_CHUNK: usize = 56;
+
+/// The category sweep: for every pre-tokenizer configuration that is meant to split, the sweep
+/// texts in chunks of SWEEP_CHUNK per case; default vocabulary, no or a few trained merges.
+/// Both tiers run every chunk for every configuration (the cases are cheap: no vocabulary literal).
+fn generate_sweep(rng: &mut SplitMix64, out: &mut impl Write) {
+    let texts = category_sweep_texts();
+    let chunks: Vec<&[String]> = texts.chunks(SWEEP_CHUNK).collect();
+    let kinds = ["gpt2", "llama3", "seq", "bert", "digits", "digits1", "ws-iso", "word-iso", "char", "none"];
+    for kind in kinds.iter() {
+        for (ci, chunk) in chunks.iter().enumerate() {
+            let merges = if ci % 2 == 1 {
+                let mut corpus: Vec<Vec<u8>> = Vec::new();
+                for t in chunk.iter() {
+                    corpus.extend(pieces_for_training(kind, t));
+                }
+                train_merges(rng, &corpus, 8, None)
+            } else {
+                vec![]
+            };
+            let spec = Spec { merges, vocab: VocabSpec::None, eow: None, ignore: false, added: vec![] };
+            let t: Vec<String> = chunk.iter().map(|s| hex_of_str(s)).collect();
+            writeln!(out, "{}|P={}|N=-|T={}|D=|G=catsweep-{}", spec.format(), kind, t.join(";"), kind).unwrap();
+        }
+    }
+}
+
+fn generate(seed: u64, n: usize, tier: &str, out: &mut impl Write) {
     writeln!(out, "TABLE").unwrap();
     let mut rng = SplitMix64(seed ^ 0xc27);
+    let _ = tier;
+    generate_sweep(&mut rng, out);
     let pkinds = ["gpt2", "gpt2", "gpt2", "none", "llama3", "bert", "digits", "digits1", "ws-iso", "word-iso", "char", "noop", "seq", "ws-rem", "word-rem"];
     let nkinds = ["-", "-", "-", "-", "-", "-", "-", "-", "-", "bertnoop", "nfc", "nfd", "nfkc", "nfkd", "lower", "bert", "repl", "repl-short", "seq"];
     for i in 0..n {
